@@ -259,6 +259,8 @@ def include_case(ctx, rng, g, fault):
         files, main_path, info = c07.build(rng, g)
     except RuntimeError:
         return ctx.out_of_domain("include generator gave up")
+    if rng.random() < 0.4:
+        return stale_library_case(ctx, rng, files, main_path, info, fault)
     for _ in range(8):
         nv = c07.negative_variant(rng, files, main_path, info)
         if nv and nv[1] == ("neg:arity" if fault == "include:arity" else "neg:keywords"):
@@ -282,6 +284,58 @@ def include_case(ctx, rng, g, fault):
                 return None, e
 
         check_case(ctx, repr(sorted(files2.items())), fault, None, None, None, None, loader=loader, witness={"files": files2, "main": main_path, "fault": fault})
+    finally:
+        shutil.rmtree(root, ignore_errors=True)
+
+
+def stale_library_case(ctx, rng, files, main_path, info, fault):
+    """The call is left alone and the *included file* is changed so that the call no longer fits it (one more mode / a
+    parameter under another name).  The unchanged tree is loaded first, from the same paths: what an earlier load saw of a
+    file must not decide whether a later call is accepted."""
+    main_dir = os.path.dirname(main_path)
+    direct = [s_ for s_ in info["subs"] if isinstance(files.get(os.path.normpath(os.path.join(main_dir, s_[1]))), str)
+              and re.search(r"(?m)^%s[ (]" % re.escape(s_[0]), files[main_path])]
+    if fault == "include:keywords":
+        direct = [s_ for s_ in direct if s_[3]]
+    if not direct:
+        return ctx.out_of_domain("no directly called sub-program to change")
+    name, rel, nmodes, params, depth = rng.choice(direct)
+    lib = os.path.normpath(os.path.join(main_dir, rel))
+    text = files[lib]
+    if fault == "include:arity":
+        changed = text.rstrip("\n") + "\nExtraMode | 119\n" if rng.random() < 0.6 else text
+        if changed is text:
+            return ctx.out_of_domain("no directly called sub-program to change")
+    else:
+        pn = rng.choice(params)
+        changed = text.replace("{%s}" % pn, "{%s_renamed}" % pn)
+    files2 = dict(files)
+    files2[lib] = changed
+    root = os.path.realpath(tempfile.mkdtemp(prefix="bbv-c11-"))
+    try:
+        c07.materialise(root, files2)
+        k = c07.ref_of(files2, main_path, root)
+        if k[0] != "ill" or not k[1].kind.startswith("include-"):
+            return ctx.out_of_domain("include fault not certified by the reference")
+        c07.materialise(root, files)
+        import blackbird
+
+        try:
+            blackbird.load(os.path.join(root, main_path))
+            ctx.observe("stale-library: first load of the fitting tree succeeded")
+        except Exception:
+            ctx.observe("stale-library: first load of the fitting tree raised")
+        c07.materialise(root, files2)
+
+        def loader():
+            try:
+                return blackbird.load(os.path.join(root, main_path)), None
+            except Exception as e:
+                return None, e
+
+        check_case(ctx, repr(sorted(files2.items())) + "/stale", fault, None, None, None, None, loader=loader,
+                   witness={"files": files2, "files_loaded_first": files, "main": main_path, "fault": fault})
+        ctx.tags["include-file-changed-between-loads"] += 1
     finally:
         shutil.rmtree(root, ignore_errors=True)
 
@@ -349,7 +403,7 @@ def run(ctx):
                 ctx.out_of_domain("include fault skipped (cost)")
             continue
         if fault.startswith("include:"):
-            if rng.random() < 0.35:
+            if rng.random() < 0.7:
                 include_case(ctx, rng, g, fault)
             else:
                 ctx.out_of_domain("include fault skipped (cost)")
